@@ -44,20 +44,29 @@ func anyMsgField(p *Program) VPred {
 
 // recF: field `field` of a record obtained from a call to one of the named functions (or of a parameter with that type name).
 func recF(field string, callees ...string) VPred {
-	return func(v ssa.Value) bool {
-		pa := pathOf(v)
-		fs := pa.FieldString()
-		if fs != field && !strings.HasSuffix(fs, "."+field) {
-			return false
-		}
-		src, _ := tupleSource(pa.Root)
+	okRoot := func(root ssa.Value) bool { return false }
+	okRoot = func(root ssa.Value) bool {
+		src, _ := tupleSource(root)
 		c, ok := src.(*ssa.Call)
 		if !ok {
-			if ex, isEx := pa.Root.(*ssa.Extract); isEx {
+			if ex, isEx := root.(*ssa.Extract); isEx {
 				c, ok = ex.Tuple.(*ssa.Call)
 			}
 		}
 		if !ok {
+			// a record taken from one of several accepted lookups (proposal from the passed or the failed store)
+			if phi, isPhi := root.(*ssa.Phi); isPhi && len(phi.Edges) > 0 {
+				for _, e := range phi.Edges {
+					if e == ssa.Value(phi) {
+						continue
+					}
+					pe := pathOf(e)
+					if len(pe.Fields) != 0 || !okRoot(pe.Root) {
+						return false
+					}
+				}
+				return true
+			}
 			return false
 		}
 		n := calleeName(c)
@@ -67,6 +76,14 @@ func recF(field string, callees ...string) VPred {
 			}
 		}
 		return len(callees) == 0
+	}
+	return func(v ssa.Value) bool {
+		pa := pathOf(v)
+		fs := pa.FieldString()
+		if fs != field && !strings.HasSuffix(fs, "."+field) {
+			return false
+		}
+		return okRoot(pa.Root)
 	}
 }
 
